@@ -1353,6 +1353,53 @@ def campaign_e2e_deep(ck: Check, n_cases: int) -> None:
     camp.wall_s = time.time() - t0
 
 
+def cycle_chain_graph(depth: int, closes_at: int, how: str, rooted: bool):
+    """A reference cycle that passes through an inheritance chain, in dependency order:
+    Top{leaf: Leaf};  C1(Top), C2(C1), …, C<depth>(C<depth-1>);  Leaf closes the cycle at C<closes_at>, either as its
+    subclass (`how` = "sub") or by a member of that type ("member"). Top can only be written before Leaf, so Top gets its
+    resolution call in the cycle fall-back of sort_data_models and EVERY C_k inherits the forward reference `leaf: Leaf`
+    (each needs a call of its own; the classes below C<closes_at> hang on the cycle without being part of it).
+    `rooted`: Top itself derives from a plain model outside the cycle.
+    ids: Top 0, C_k k, Leaf depth+1, the plain root depth+2."""
+    leaf = depth + 1
+    g = [node(0, (depth + 2,) if rooted else (), (leaf,))]
+    g += [node(k, (k - 1,), ()) for k in range(1, depth + 1)]
+    g.append(node(leaf, (closes_at,), ()) if how == "sub" else node(leaf, (), (closes_at,)))
+    if rooted:
+        g.append(node(depth + 2))
+    return g
+
+
+def campaign_e2e_cycle_chain(ck: Check, all_orders: bool) -> None:
+    """reference cycles through inheritance chains: the forward reference of the top model is inherited at every level"""
+    camp = ck.campaign("e2e reference cycle through an inheritance chain of depth 1..3 below a model flagged in the cycle fall-back "
+                       "x where the cycle closes x input orders x kinds: every subclass usable through the inherited member; footer vs Model.Sort.emitFooter")
+    at(ck, camp)
+    t0 = time.time()
+    rng = ck.rng.fork("e2e-cycle-chain")
+    obs = []
+    for depth in (1, 2, 3):
+        for closes_at in range(1, depth + 1):
+            for how in ("sub", "member"):
+                for rooted in (False, True) if (all_orders or how == "sub") else (False,):
+                    g0 = cycle_chain_graph(depth, closes_at, how, rooted)
+                    camp.hit(f"depth={depth}")
+                    camp.hit("closes at the lowest class" if closes_at == depth else "closes at a middle class")
+                    camp.hit("closed by " + ("a subclass" if how == "sub" else "a member"))
+                    if all_orders and len(g0) <= 5:
+                        orders = [list(o) for o in itertools.permutations(g0)]
+                    else:
+                        orders = [list(g0), list(reversed(g0)), g0[1:] + g0[:1], g0[-1:] + g0[:-1]] + [rng.shuffle(list(g0)) for _ in range(6 if all_orders else 2)]
+                    for k, g in enumerate(orders):
+                        g = [dict(n) for n in g]
+                        for kind in E2E_KINDS[:2] if (all_orders or k % 2 == 0) else [E2E_KINDS[k // 2 % 2]]:
+                            obs.append((g, kind, {}, e2e_case(ck, camp, g, kind, {})))
+                        if k < 2:  # dataclass output: ordering only (annotations stay strings)
+                            e2e_case(ck, camp, g, "dataclasses.dataclass", {})
+    predict_footers(ck, camp, obs)
+    camp.wall_s = time.time() - t0
+
+
 def campaign_e2e_keep_order(ck: Check, n_cases: int) -> None:
     """--keep-model-order: inheritance forests whose class names sort in every relation to the inheritance direction"""
     camp = ck.campaign("e2e --keep-model-order: inheritance chains/forests x every assignment of names (reverse-alphabetical chains included)")
@@ -1568,6 +1615,7 @@ def run(ck: Check) -> None:
     guarded(ck, campaign_sort, 500 if quick else 5000, 3 if quick else 4)
     guarded(ck, campaign_stack, 120 if quick else 600, not quick)
     guarded(ck, campaign_bubble, 4 if quick else 5)
+    guarded(ck, campaign_e2e_cycle_chain, not quick)
     guarded(ck, campaign_e2e_keep_order, 60 if quick else 500)  # before the function-level campaign: a failing DOCUMENT becomes the replay
     guarded(ck, c11_dups.campaign_dups, 240 if quick else 2400)
     guarded(ck, campaign_sort_models, 600 if quick else 6000)
